@@ -21,6 +21,7 @@ import (
 	"sort"
 	"strings"
 	"sync/atomic"
+	"testing/synctest"
 	"time"
 )
 
@@ -219,33 +220,7 @@ func (s *sim) observe() string {
 	}
 
 	// O4: done channels
-	nDone := 0
-	for _, o := range s.ops {
-		if o.kind != opQueueMsg || o.nilDone {
-			continue
-		}
-	drain:
-		for {
-			select {
-			case <-o.done:
-				o.dones++
-				if o.dones == 1 {
-					o.doneStep = s.step
-				}
-			default:
-				break drain
-			}
-		}
-		if o.dones > 1 {
-			r.Violate(prop, "O4-done-exactly-once", "", "%s: done channel signalled %d times", opDesc(o), o.dones)
-		}
-		if o.dones == 1 {
-			nDone++
-			if o.doneStep == s.step && o.assoc && connected && len(s.wirePos(o)) == 0 {
-				r.Violate(prop, "O4-done-after-write", "", "%s: done signalled while the peer is connected and not disconnecting, but its bytes are not on the wire", opDesc(o))
-			}
-		}
-	}
+	nDone := s.pollDones(connected)
 	nWire := 0
 	for _, o := range s.ops {
 		if o.kind == opQueueMsg {
@@ -296,6 +271,41 @@ func (s *sim) scriptString() string {
 		b = append(b, d)
 	}
 	return strings.Join(b, " ")
+}
+
+// pollDones counts the signals that have arrived on the done channels and
+// evaluates the exactly-once and done-after-write oracles.
+func (s *sim) pollDones(connected bool) int {
+	r := s.r
+	nDone := 0
+	for _, o := range s.ops {
+		if o.kind != opQueueMsg || o.nilDone {
+			continue
+		}
+	drain:
+		for {
+			select {
+			case <-o.done:
+				o.dones++
+				if o.dones == 1 {
+					o.doneStep = s.step
+					o.lateDone = s.draining
+				}
+			default:
+				break drain
+			}
+		}
+		if o.dones > 1 {
+			r.Violate(prop, "O4-done-exactly-once", "", "%s: done channel signalled %d times", opDesc(o), o.dones)
+		}
+		if o.dones == 1 {
+			nDone++
+			if o.doneStep == s.step && o.assoc && connected && len(s.wirePos(o)) == 0 {
+				r.Violate(prop, "O4-done-after-write", "", "%s: done signalled while the peer is connected and not disconnecting, but its bytes are not on the wire", opDesc(o))
+			}
+		}
+	}
+	return nDone
 }
 
 // quiet: no fault that can legitimately delay the peer is in effect.
@@ -395,7 +405,15 @@ func peerGoroutines() []string {
 				frames = append(frames, l)
 			}
 		}
-		out = append(out, strings.Join(frames, "<-"))
+		state := ""
+		if i := strings.IndexByte(hdr, '['); i >= 0 {
+			state = hdr[i+1:]
+			if j := strings.IndexAny(state, ",(]"); j >= 0 {
+				state = state[:j]
+			}
+			state = strings.TrimSpace(state)
+		}
+		out = append(out, strings.Join(frames, "<-")+" ["+state+"]")
 	}
 	sort.Strings(out)
 	return out
@@ -416,8 +434,48 @@ func (s *sim) finalOracles() {
 	if s.waiterStarted && !s.waiterDone.Load() {
 		r.Violate(prop, "O5-waitfordisconnect", "", "WaitForDisconnect has not returned 5 simulated minutes after the disconnect (cause %s)", s.discCause)
 	}
+	stuckOut := false
 	if gs := peerGoroutines(); len(gs) > 0 {
-		r.Violate(prop, "O5-goroutines-end", "", "%d goroutine(s) still inside the peer 5 simulated minutes after the disconnect (cause %s): %s", len(gs), s.discCause, strings.Join(gs, " | "))
+		known := ""
+		onlyReject, onlyStallSend := true, true
+		for _, g := range gs {
+			if g != "peer.(*Peer).PushRejectMsg<-peer.(*Peer).inHandler [chan receive]" {
+				onlyReject = false
+			}
+			if g != "peer.(*Peer).inHandler [chan send]" && g != "peer.(*Peer).outHandler [chan send]" {
+				onlyStallSend = false
+			}
+		}
+		s.y.mu.Lock()
+		race := s.y.rejectRace
+		s.y.mu.Unlock()
+		switch {
+		case onlyReject && race:
+			// the input handler was inside QueueMessage, past the Connected()
+			// test, while a disconnect ran to completion; it now waits for a done
+			// signal nobody will send
+			known = "inhandler-pushreject-waits-after-concurrent-disconnect"
+		case onlyStallSend:
+			// the only channel inHandler/outHandler send on from their own frame
+			// (other than buffered done/sendDone slots) is stallControl, and the
+			// stall handler, its only reader, is gone
+			known = "stallhandler-gone-handler-blocked-on-stallcontrol"
+		}
+		r.Violate(prop, "O5-goroutines-end", known, "%d goroutine(s) still inside the peer 5 simulated minutes after the disconnect (cause %s): %s", len(gs), s.discCause, strings.Join(gs, " | "))
+		// only reached for a listed known finding: let the stuck goroutines
+		// finish so that the bubble can end.  Signals that only arrive now are
+		// marked late: the peer on its own would never have sent them.
+		s.draining = true
+		stuckOut = onlyStallSend
+		for i := 0; i < 20 && len(peerGoroutines()) > 0; i++ {
+			s.p.VerifDrainInternalQueues()
+			time.Sleep(time.Minute)
+			synctest.Wait()
+		}
+		if gs2 := peerGoroutines(); len(gs2) > 0 {
+			r.Violate(prop, "O5-goroutines-end", "", "%d goroutine(s) still inside the peer after the harness drained its internal queues: %s", len(gs2), strings.Join(gs2, " | "))
+		}
+		s.pollDones(false)
 	}
 
 	// O3 final: a refused remote never got a handshake
@@ -436,6 +494,16 @@ func (s *sim) finalOracles() {
 		}
 		ret := atomic.LoadInt64(&o.ret)
 		before := ret != 0 && ret < s.lossStamp
+		if before && o.dones == 1 && o.lateDone {
+			known := ""
+			if stuckOut {
+				// the message was in the hands of an output handler that was stuck
+				// for good (see the goroutine oracle above)
+				known = "stallhandler-gone-handler-blocked-on-stallcontrol"
+			}
+			r.Violate(prop, "O5-queued-before-disconnect-signalled", known,
+				"%s returned before the disconnect (cause %s) but its done signal only arrived after the harness unblocked a stuck goroutine of the peer", opDesc(o), s.discCause)
+		}
 		if before && o.dones != 1 {
 			known := ""
 			why := ""
